@@ -291,8 +291,14 @@ class Values:
                 self._havoc([st], env, st.lineno)
                 if isinstance(st, (ast.For, ast.AsyncFor)):
                     self._record(st.iter, env)
-                for s in st.body + st.orelse:
-                    self._record(s, env)
+                # the body once, as a block of its own: what it assigns before it uses is inlined
+                # there, what the loop carries round stays opaque; a return inside is not followed
+                benv = dict(env)
+                try:
+                    self._walk(list(st.body) + list(st.orelse), benv, out=benv)
+                except TooBranchy:
+                    for s in st.body + st.orelse:
+                        self._record(s, env)
                 continue
             if isinstance(st, (ast.With, ast.AsyncWith)):
                 for item in st.items:
